@@ -25,7 +25,7 @@ def sweep(pid, tier, seed):
 
 
 SPEC = {
-    "corr": [{"kind": "mirror", "quick": 1600, "thorough": 40000, "runner": RUNNER}],
+    "corr": [{"kind": "mirror", "quick": 4000, "thorough": 100000, "runner": RUNNER}],
     "extra": [sweep],
     "rule": "real mirrorIPFIX/mirrorSFlow towards random 127/8 targets and ports, captured on a raw IPPROTO_UDP socket and a UDP "
             "listener; payload lengths 0..max biased to max-29..max for max in {64,1500,9000}, random contents and sources in 4- and "
